@@ -601,10 +601,13 @@ fn must_reject(line: &str) -> bool {
 }
 
 fn prop_tp(mode: &str, hex_lines: &[&str]) -> String {
-    if hex_lines.iter().any(|h| h.starts_with('g')) {
+    let lines = tp_lines(hex_lines);
+    // [General] lines other than the two sample defaults (e.g. a `Mode` record) are outside the oracle
+    if lines.iter().any(|l| l.strip_prefix('\u{1}').map_or(false, |g| {
+        !matches!(g.split_once(':').map(|x| x.0.trim()), Some("SampleSet") | Some("SampleVolume"))
+    })) {
         return "SKIP general-lines".to_owned();
     }
-    let lines = tp_lines(hex_lines);
     let (rs, tp) = run_tp(mode, &lines);
     let cp = &tp.control_points;
     let scrolling = mode == "1" || mode == "3";
@@ -647,9 +650,44 @@ fn prop_tp(mode: &str, hex_lines: &[&str]) -> String {
 
     // the legacy model
     let mut accepted: Vec<CleanLine> = Vec::new();
+    // [General] defaults in force when a line is read: a line that carries no sample-set / volume field takes them
+    // (legacy rule: the field wins whenever it is present; set 0 / None plays as Normal)
+    let mut def_bank: i32 = 1;
+    let mut def_vol: i32 = 100;
     for (line, r) in lines.iter().zip(&rs) {
         let ok = r == "ok";
-        match clean_line(line) {
+        if let Some(g) = line.strip_prefix('\u{1}') {
+            let Some((k, v)) = g.split_once(':') else { return "SKIP general-line-outside-oracle".to_owned() };
+            let (k, v) = (k.trim(), v.trim());
+            match k {
+                "SampleSet" => match v {
+                    "0" | "None" | "1" | "Normal" => def_bank = 1,
+                    "2" | "Soft" => def_bank = 2,
+                    "3" | "Drum" => def_bank = 3,
+                    _ if !ok => {}
+                    _ => return "SKIP general-line-outside-oracle".to_owned(),
+                },
+                "SampleVolume" => match plain_int(v) {
+                    Some(n) if ok => def_vol = n,
+                    None if !ok => {}
+                    _ => return "SKIP general-line-outside-oracle".to_owned(),
+                },
+                _ => return "SKIP general-line-outside-oracle".to_owned(),
+            }
+            continue;
+        }
+        if let Some(c) = clean_line(line) {
+            // a sample set outside 0..=3 has no legacy meaning (the reference keeps the number as a bank name); with the
+            // default bank Normal every reading agrees, otherwise the case is outside the oracle
+            if ok && def_bank != 1 && c.bank.map_or(false, |b| !(0..=3).contains(&b)) {
+                return "SKIP invalid-sample-set-with-general-default".to_owned();
+            }
+        }
+        match clean_line(line).map(|mut c| {
+            c.bank = Some(c.bank.unwrap_or(def_bank));
+            c.volume = Some(c.volume.unwrap_or(def_vol));
+            c
+        }) {
             Some(c) => {
                 let expect = !(c.beat.is_nan() && c.timing);
                 if ok != expect {
